@@ -561,6 +561,13 @@ Theorem full_tables_before_f9_refuted :
 Proof. exact full_tables_refuted_before_f9. Qed.
 Print Assumptions full_tables_before_f9_refuted.
 
+(* the two decision procedures are coherent: right full tables are right for every triangle reader *)
+Theorem full_spec_implies_reader_spec :
+  forall m N D Xl W dvl lhs rhs,
+    spec_full_b m N D Xl W dvl lhs rhs = true -> spec_construct_b m N D Xl W dvl lhs rhs = true.
+Proof. exact spec_full_implies_seen. Qed.
+Print Assumptions full_spec_implies_reader_spec.
+
 Example full_spec_nonvacuous :
   exists lhs rhs, run_construct VF42 LPP 2 2 [[qz 1; qz 1]; [qz 0; qz 1]] wW [qz 1; qz 1] = Ok (lhs, rhs) /\
                   spec_full_b LPP 2 2 [[qz 1; qz 1]; [qz 0; qz 1]] wW [qz 1; qz 1] lhs rhs = true.
